@@ -117,8 +117,12 @@ class Belief:
     def apply(self, op):
         k = op["op"]
         if k == "set_units":
-            for s, (_, u) in op["slots"].items():
-                self.slots[s] = u
+            for s, (how, u) in op["slots"].items():
+                if how == "enum":
+                    self.slots[s] = u
+                else:
+                    from pbsim.props.c18 import resolve
+                    self.slots[s] = resolve(u) or self.slots[s]
         elif k == "assign_unit":
             self.slots[op["slot"]] = op["unit"]
         elif k == "defaults":
@@ -370,7 +374,47 @@ def _bare_zero_params(x, name=""):
     return out
 
 
+def gen_admin_sweep(seed, tier):
+    """one client with a short, cheap program of explicit-unit operations + the admin task: the WHOLE client program is
+    run at (up to 150 of) the pre-emption points of the admin's settings changes, so every intermediate state a setter
+    or preset loader passes through is observed by complete computations"""
+    rng = rng_for(seed, "program")
+    w = empty_world()
+    simgen.gen_pool(rng, w, n_tables=(1, 1), n_dms=(1, 2), n_ammos=(1, 2), n_atmos=(1, 2), n_winds=(1, 2))
+    w["weapons"].append(simgen.gen_weapon(rng))
+    w["shots"].append(simgen.gen_shot(rng, w, 0, steep_p=0.0))
+    w["calcs"].append({"config": {"max_calc_step_size_feet": 8.0}})
+    prog = [{"op": "new_calc", "calc": 0}]
+    for _ in range(3):
+        prog.append(simgen.gen_mk_op(rng))
+    prog.append({"op": "fire", "calc": 0, "shot": 0, "range": [150.0, "Yard"], "step": [50.0, "Yard"], "extra": True})
+    prog.append({"op": "danger", "fire": len(prog) - 1, "at": [100.0, "Yard"], "height": [0.5, "Meter"], "look": None})
+    prog.append({"op": "zero", "calc": 0, "shot": 0, "dist": [100.0, "Yard"]})
+    prog.append(gen_sight_op(rng, None))
+    admin = simgen.gen_units_flip_program(rng, rng.randint(1, 3))
+    # always: one settings call that mixes a valid unit, a valid NAME and an UNKNOWN name on slots the client reads -
+    # the branches of the setter with the most intermediate steps
+    hot = rng.sample(["distance", "angular", "adjustment", "temperature", "velocity", "sight_height", "pressure"], 3)
+    from pbsim.names import UNIT_ALIASES
+    u = simgen.pick_unit(rng, SLOTS[hot[1]][0])
+    admin.insert(rng.randrange(len(admin) + 1), {"op": "set_units", "slots": dict(sorted({
+        hot[0]: ["name", gen.pick(rng, ["xyz", "meterz", ""])],
+        hot[1]: ["name", gen.pick(rng, [u] + UNIT_ALIASES[u]).lower()],
+        hot[2]: ["enum", simgen.pick_unit(rng, SLOTS[hot[2]][0])]}.items()))})
+    return {"seed": seed, "mode7": "race", "world": w, "programs": [prog, admin], "roles": {"0": "client", "1": "admin"},
+            "config": {"mode": "line", "policy": "serial", "mean_run": 1000, "opcode": False}, "faults": []}
+
+
 def run_case(seed, tier, idx):
+    if rng_for(seed, "adminsweep").random() < (0.03 if tier == "quick" else 0.06):
+        spec = gen_admin_sweep(seed, tier)
+        rec = sweep_depth1(spec, None, 150, post=lambda s, h, v: [refine(x, s, h) for x in v], a_task=1,
+                           only_inside=("set", "defaults", "_load_config", "_basic_config", "<boundary>", "<op start>"))
+        rec["mode7"] = "race"
+        rec["bare_args"] = rec["bare_zero_args"] = 0
+        rec["flips"] = len(spec["programs"][1])
+        rec["nontrivial"] = True
+        return rec
     spec = gen_spec(seed, tier)
     rec = None
     if spec["mode7"] == "race" and len(spec["programs"]) == 2:
